@@ -24,11 +24,12 @@ from ..pool import pmap
 from ..tlc import MachineryError
 
 CFG = {"quick": "ReadOnlyQuick.cfg", "thorough": "ReadOnlyThorough.cfg"}
-ASBUILT = {"RepackOnReadOnlyClose": "AsBuiltRepackExport.cfg", "RepeatAccepted": "AsBuiltRepeatExport.cfg"}
+ASBUILT = {"RepackOnReadOnlyClose": "AsBuiltRepackExport.cfg", "RepeatAccepted": "AsBuiltRepeatExport.cfg",
+           "RefusalUnprotects": "AsBuiltRefusalExport.cfg"}
 NEGATIVE = [("NegRepackOnReadOnlyClose.cfg", "ReadOnlyFrozen"), ("NegWriteIgnored.cfg", "WritesRefused"),
             ("NegWriteThroughReadOnly.cfg", "ReadOnlyFrozen"), ("NegLazyGetterUpgrades.cfg", "ReadOnlyFrozen"),
             ("NegHelperUpgrades.cfg", "HelpersPreserveSource"), ("NegHelperOpensWritable.cfg", "HelpersPreserveSource"),
-            ("NegRepeatAccepted.cfg", "RepeatRefused")]
+            ("NegRepeatAccepted.cfg", "RepeatRefused"), ("NegRefusalUnprotects.cfg", "WritesRefused")]
 HOWS = ("close", "finalize", "exit")
 MIN_W, MIN_G, MIN_REFUSED = 100, 300, 100  # vacuity thresholds
 _CTX = {}
@@ -128,12 +129,24 @@ def _single_pass(eps, classes, seed):
             by_holder[ep["cls"]].append(rr.step_for("Read", {"op": ep["op"]}, bound))
             continue
         act = "Write" if c["cls"] == "W" else "Probe"
-        n += 1
-        steps = [rr.step_for("Open", {"m": "r"}, variant=0), rr.step_for(act, {"op": ep["op"]}, bound)]
-        if act == "Write" and ep["kind"] == "set":  # the refused assignment once more, verbatim (twice for every third)
-            steps += [rr.step_for("Repeat", {"op": ep["op"]})] * (2 if (n + seed) % 3 == 0 else 1)
-        steps.append(rr.step_for("Close", {"how": HOWS[(n + seed) % 3]}))
-        items.append({"kind": "pass", "steps": steps})
+        for tag, targets in [(c["tag"], c.get("targets", []))] + list(c.get("variants", [])):
+            n += 1
+            this = dict(bound, tag=tag)
+            steps = [rr.step_for("Open", {"m": "r"}, variant=0), rr.step_for(act, {"op": ep["op"]}, this)]
+            if act == "Write" and ep["kind"] == "set":  # the refused assignment once more, verbatim (twice for every third)
+                steps += [rr.step_for("Repeat", {"op": ep["op"]})] * (2 if (n + seed) % 3 == 0 else 1)
+            elif act == "Write":
+                # after the refused creation / removal / copy: the entities it was about (with their data and property
+                # groups) stay protected
+                for uid, cls, hkind in targets:
+                    if classes.get(f"set:{cls}.name", {}).get("cls") == "W":
+                        follow = {"id": f"set:{cls}.name", "kind": "set", "name": "name", "cls": cls,
+                                  "family": ("PropertyGroup" if hkind == "pgroup" else "Entity") + ".name=",
+                                  "loc": {"how": "pg" if hkind == "pgroup" else "uid", "uid": uid}, "tag": "sfx",
+                                  "deferred": False}
+                        steps.append(rr.step_for("Write", {"op": f"{hkind}.set"}, follow))
+            steps.append(rr.step_for("Close", {"how": HOWS[(n + seed) % 3]}))
+            items.append({"kind": "pass", "steps": steps})
     rng = random.Random(seed)
     for cls in sorted(by_holder):
         reads = by_holder[cls]
@@ -163,7 +176,7 @@ def _run(tier, seed, tmp, t0):
     t_spec = time.time()
     # ---- specification (all TLC runs side by side: they are independent JVMs)
     from concurrent.futures import ThreadPoolExecutor
-    with ThreadPoolExecutor(max_workers=6) as pool:
+    with ThreadPoolExecutor(max_workers=7) as pool:
         f_ideal = pool.submit(_graph, CFG[tier])
         f_dev = {name: pool.submit(_graph, cfg, False) for name, cfg in ASBUILT.items()}
         f_neg = [pool.submit(_negative, cfg, prop) for cfg, prop in NEGATIVE]
@@ -213,7 +226,7 @@ def _run(tier, seed, tmp, t0):
     # what the cover must plan: thorough = every (state, label); quick = every label of the open/close/helper/fetch actions
     # in every state with at most one content change, every operation class in the two primary read-only states, and one
     # operation class per (state, action) elsewhere (rotating with the seed)
-    primary = {"r/0/sync/none/none", "r/0/any/none/none"}
+    primary = {"r/0/sync/none/none", "r/0/refused/none/none", "r/0/any/none/none"}
     wanted = set()
     for s_key in sorted(ideal.out):
         st = ideal.states[s_key]
@@ -258,7 +271,7 @@ def _run(tier, seed, tmp, t0):
     skipped = {}
     probe_out = {}
     reclassified = set()
-    steps = truncated = writes_refused = reads_ok = repeats_refused = 0
+    steps = truncated = writes_refused = reads_ok = repeats_refused = follow_refused = 0
     for r in results:
         for v in r["violations"]:
             per_sig[v["signature"]] += 1
@@ -269,6 +282,7 @@ def _run(tier, seed, tmp, t0):
         truncated += st["truncated"]
         writes_refused += st["writes_refused"]
         repeats_refused += st["repeats_refused"]
+        follow_refused += st["follow_refused"]
         reads_ok += st["reads_ok"]
         acts.update(st["acts"])
         labels.update(st["labels"])
@@ -297,6 +311,8 @@ def _run(tier, seed, tmp, t0):
                                      f"would be vacuous")
         if writes_refused < MIN_REFUSED:
             raise MachineryError("too few refused writes observed")
+        if follow_refused < MIN_REFUSED:
+            raise MachineryError("too few assignments after a refused call observed")
         if repeats_refused < MIN_REFUSED:
             raise MachineryError("too few repeated refused assignments observed")
         for act in ("Open", "ReOpen", "Close", "SaveAs", "Read", "Write", "Probe", "Repeat", "Helper", "FetchEnter",
@@ -327,6 +343,7 @@ def _run(tier, seed, tmp, t0):
         "getter_reads_ok_in_mode_r": reads_ok,
         "writes_refused_in_mode_r": writes_refused,
         "repeated_assignments_refused_again": repeats_refused,
+        "assignments_refused_after_refused_calls": follow_refused,
         "mutating_deferred_to_close": sum(1 for c in cls_list if c.get("note") == "deferred"),
         "helpers_ok": dict(helpers_ok),
         "sequences": {"single_pass": n_pass, "cover": len(cover), "random": len(items) - n_pass - len(cover)},
